@@ -79,7 +79,9 @@ def main():
         if st.get("harness_error") or rc != 0:
             with open(os.path.join(tmp, f"shard{i}.log")) as f:
                 tail = f.read()[-3000:]
-            harness_errors.append(f"shard {i} rc={rc}: {st.get('harness_error')}\n{tail}")
+            tb = str(st.get("harness_error") or tail)
+            keep = [ln for ln in tb.splitlines() if ln.startswith("  File \"/verif") or ln.startswith("  File \"/repo") or (ln and not ln.startswith(" "))]
+            harness_errors.append(f"shard {i} rc={rc}:\n" + "\n".join(keep[-14:]))
             continue
         merged["evaluations"] += st["evaluations"]
         merged["nontrivial"].update(st["nontrivial_hashes"])
